@@ -36,13 +36,13 @@ def run(tier, rep):
     quick = tier == "quick"
     rep.assumptions += ["TLC 1.8", "streams answer at most the requested number of bytes (stream contract)", "Crc24q.tla pinned"]
     bundle = de.real_bundle()
-    fe.mc(rep, "bytes", 9 if quick else 12, maxpay=2, optset="OptCore" if quick else "OptAll", bundle=bundle)
-    framer_replay.replay_graph(rep, budget=6 if quick else 8, bundle=bundle)
+    fe.mc(rep, "bytes", 10 if quick else 20, maxpay=2, optset="OptCore" if quick else "OptAll", bundle=bundle)
+    framer_replay.replay_graph(rep, budget=7 if quick else 11, bundle=bundle, optset="OptCore" if quick else "OptAll")
 
     rnd = rng("c01")
     pool = stream_corpus.payload_pool(bundle, "c01") + stream_corpus.special_payloads(bundle, rnd) + stream_corpus.syncy_payloads(rnd, 20)
     tr = fe.Traces(rep)
-    n = 30 if quick else 300
+    n = 40 if quick else 600
     for i in range(n):
         wf = i % 3 == 0
         data, items = gen_streams.mixed_stream(rnd, pool, rnd.randint(4, 14), well_formed=wf, dmg=0.25)
